@@ -12,6 +12,11 @@ import (
 	"github.com/zitadel/saml/pkg/provider/xml/xml_dsig"
 )
 
+// isTrue reports whether an xs:boolean attribute value is true ("true" or "1").
+func isTrue(value string) bool {
+	return value == "true" || value == "1"
+}
+
 func signaturePostProvided(
 	signatureF func() *xml_dsig.SignatureType,
 ) func() bool {
@@ -33,8 +38,8 @@ func signaturePostVerificationNecessary(
 		spMeta := spMetadataF()
 		idpMeta := idpMetadataF()
 
-		return ((spMeta == nil || spMeta.SPSSODescriptor == nil || spMeta.SPSSODescriptor.AuthnRequestsSigned == "true") ||
-			(idpMeta == nil || idpMeta.WantAuthnRequestsSigned == "true") ||
+		return ((spMeta == nil || spMeta.SPSSODescriptor == nil || isTrue(spMeta.SPSSODescriptor.AuthnRequestsSigned)) ||
+			(idpMeta == nil || isTrue(idpMeta.WantAuthnRequestsSigned)) ||
 			signaturePostProvided(signatureF)()) &&
 			protocolBinding() == PostBinding
 	}
